@@ -113,6 +113,15 @@ func (l *leader) release() {
 	l.replUpdateCh = nil
 }
 
+// stopRepls stops the replications and waits for them to finish
+func (l *leader) stopRepls() {
+	for id, repl := range l.repls {
+		close(repl.stopCh)
+		delete(l.repls, id)
+	}
+	l.wg.Wait()
+}
+
 func (l *leader) storeEntry(ne *newEntry) {
 	assert(ne != nil)
 	lastIndex, configIndex := l.lastLogIndex, l.configs.Latest.Index
